@@ -4,6 +4,9 @@ import (
 	"encoding/hex"
 	"fmt"
 	"math"
+	"net/url"
+	"reflect"
+	"regexp"
 	"sort"
 	"strconv"
 	"strings"
@@ -142,6 +145,24 @@ func currentParams(c *media.Case, track int, wi int) media.Params {
 	return cur
 }
 
+var reQueryInPlaylist = regexp.MustCompile(`\?[^"\n]*`)
+
+// sameURI: same path, and the same query parameters once decoded ("the request's query string is
+// preserved": the muxer re-encodes it, as it must before putting it between double quotes).
+func sameURI(got, want string) bool {
+	gp, gq, _ := strings.Cut(got, "?")
+	wp, wq, _ := strings.Cut(want, "?")
+	if gp != wp {
+		return false
+	}
+	if gq == wq {
+		return true
+	}
+	gv, err1 := url.ParseQuery(gq)
+	wv, err2 := url.ParseQuery(wq)
+	return err1 == nil && err2 == nil && reflect.DeepEqual(gv, wv)
+}
+
 // C16 — multivariant truthfulness.
 func C16(x *Ctx) {
 	x.prop = "C16"
@@ -174,7 +195,7 @@ func C16(x *Ctx) {
 		if c.Query != "" {
 			q = "?" + c.Query
 		}
-		if want := h.LeadingStream() + "_stream.m3u8" + q; va.URI != want {
+		if want := h.LeadingStream() + "_stream.m3u8" + q; !sameURI(va.URI, want) {
 			x.fail("uri", "variant-uri", "%s: variant URI %q, expected %q", where, va.URI, want)
 		}
 		// the same playlist for every viewer, each with the query string of its own request
@@ -183,11 +204,10 @@ func C16(x *Ctx) {
 			if !r.MVAlt.OK() {
 				x.fail("uri", "alt-status", "%s: index.m3u8?%s status %d", where, r.AltQuery, r.MVAlt.Status)
 			} else {
-				strip := func(body []byte, query string) string {
-					if query == "" {
-						return string(body)
-					}
-					return strings.ReplaceAll(string(body), "?"+query, "")
+				// (the query may be served re-encoded - "%20" as "+", parameters sorted -: it is compared
+				// decoded by sameURI, and cut off here)
+				strip := func(body []byte, _ string) string {
+					return reQueryInPlaylist.ReplaceAllString(string(body), "")
 				}
 				a, b := strip(r.MV.Resp.Body, c.Query), strip(r.MVAlt.Body, r.AltQuery)
 				ap := m3u8x.Parse(r.MVAlt.Body)
@@ -197,7 +217,7 @@ func C16(x *Ctx) {
 				}
 				if ap.Multivariant == nil || len(ap.Multivariant.Variants) != 1 {
 					x.fail("uri", "alt-parse", "%s: index.m3u8%s is not a multivariant playlist with one variant", where, altq)
-				} else if want := h.LeadingStream() + "_stream.m3u8" + altq; ap.Multivariant.Variants[0].URI != want {
+				} else if want := h.LeadingStream() + "_stream.m3u8" + altq; !sameURI(ap.Multivariant.Variants[0].URI, want) {
 					x.fail("uri", "alt-variant-uri", "%s: a request for index.m3u8%s got variant URI %q, expected %q", where, altq, ap.Multivariant.Variants[0].URI, want)
 				} else if a != b {
 					x.fail("uri", "alt-differs", "%s: index.m3u8%s and index.m3u8%s differ in more than the query string of their URIs", where, q, altq)
@@ -357,7 +377,7 @@ func C16(x *Ctx) {
 				if rd.Language != w.lang {
 					x.fail("renditions", "rendition-language", "%s: rendition %d LANGUAGE=%q, track language %q", where, i, rd.Language, w.lang)
 				}
-				if w.hasURI != (rd.URI != nil) || (rd.URI != nil && *rd.URI != w.uri) {
+				if w.hasURI != (rd.URI != nil) || (rd.URI != nil && !sameURI(*rd.URI, w.uri)) {
 					u := "<none>"
 					if rd.URI != nil {
 						u = *rd.URI
